@@ -45,8 +45,9 @@ PROPS = {
     "C08": dict(
         level="proof", engines=[eng("ctx", 250, 5000, timeout=900)], labels=["C08"],
         text="Partial. Theorems (Props/C08.lean): a call waits at three kinds of places only; the reply loop returns the context's error as soon as the context end is consumed (ctx_returns_at_once, for every "
-             "parameter value, quorum function and history); the router lock a caller needs is unavailable for good only in the back-pressure wedge of C09, which needs a server-stream call that ended early. "
-             "Tie: loop parameters (Tie/C02), connection decisions (Tie/C09), digests of enqueue (whose select contains the request's context: the repair of defect D2), the reply loops, the one-way waits, sendMsg and "
+             "parameter value, quorum function and history); the router lock a caller needs is unavailable for good only in the back-pressure wedge of C09, which needs a server-stream call that ended early; a one-way call's wait for send confirmations returns as soon as the "
+             "context's end is consumed (oneway_ctx_returns; without the context case it keeps waiting: oneway_needs_ctx_case). "
+             "Tie: loop parameters (Tie/C02), connection decisions (Tie/C09), the three cases of enqueue's select (parent context, caller's context, send queue: the repair of defect D2) and the context case of the one-way waits regenerated from the tree; digests of enqueue, the reply loops, the one-way waits, sendMsg and "
              "reconnect; engine ctx: call type x node behaviour {healthy, down, silent, peer not reading} x background traffic x instant of the context end, return within 2 s and errors.Is(err, ctx.Err()); plus a server-stream call that completed under a long-lived context whose servers stream on afterwards: calls with deadlines on the same nodes keep returning.",
         note="Partial: wall-clock delay, scheduler fairness and transport time-outs are outside the model; the 2 s bound is a test. The errors.Is clause is decided by the model (Props/C02 exhaustion_outcome: the exhaustion branch reports the context's error once the context has ended; repaired by fix ba53414).",
     ),
@@ -72,7 +73,7 @@ PROPS = {
     "C12": dict(
         level="proof", engines=[eng("close", 20, 400, timeout=1500)], labels=["C12"],
         text="Partial. Theorems (Props/C12.lean): after Close, a state in which nothing can move has both goroutines exited (unless the receiver is blocked in the back-pressure wedge); no stream is alive and no request is "
-             "accepted after Close; the exiting sender leaves no request in the queue. Tie: send-queue capacity regenerated; digests of Close / closeNodeConns / RawNode.close / connect / enqueue / sender / receiver / reconnect / "
+             "accepted after Close; the exiting sender leaves no request in the queue and the exiting receiver no request unanswered; hence after Close, at rest, nothing is owed — no caller is stranded — outside the back-pressure wedge (closed_rest_owes_nothing). Tie: send-queue capacity regenerated; digests of Close / closeNodeConns / RawNode.close / connect / enqueue / sender / receiver / reconnect / "
              "Multicast / Unicast; engine close: send buffer {0,1,8} x node states x in-flight calls of all types x Close once / twice / concurrently: every in-flight call returns within 3 s, calls after Close fail fast "
              "without panic, client-side library goroutines and the goroutines of the gRPC client connections are gone.",
         note="Partial: goroutine exit and socket closure are observed at runtime, not proved.",
@@ -180,7 +181,7 @@ PROPS = {
         text="Theorems (Props/C11.lean): the object starts at LevelNotSet with no reply; the watcher invariant (closed iff level reached or completed) is preserved by Watch at any "
              "moment and by every publication; the loop never calls set on a completed object; published levels never decrease; only the last snapshot can be completed (done is final); "
              "a strictly higher level is published at once with the quorum function's value and releases the watchers at or below it; done publishes QF's value, releases everything; "
-             "context end / exhaustion (also zero targets; streams: all failed) complete with the right error; every stored reply is a QF value, so the typed accessors never panic; 'every node has failed' counts nodes, not errors: a node answers a request with at most one error (Chan: at_most_one_error, the repair of D18). "
+             "context end / exhaustion (also zero targets; streams: all failed) complete with the right error; every stored reply is a QF value, so the typed accessors never panic; 'every node has failed' counts nodes, not errors: a node answers a request with at most one error (Chan: at_most_one_error, the repair of D18), and then the stream arm of the exhaustion test holds exactly when every targeted node has failed (stream_exhausted_iff_all_failed; pinned_double_error_completes shows the count alone says nothing). "
              "Tie (Tie/C11.lean): initial level, both exhaustion arms and their position, both watcher comparisons and the publication structure of the reply case are regenerated from "
              "correctable.go on every run; digests; exact differential run of all 12 correctable variants (gated arrivals, crashes of a node's server during a stream, snapshots of raw/typed Get, Done and every Watch channel after every arrival).",
         note="Trusted: Lean kernel; gx; the hand-written loop/object model (tied by T1 facts, digests and the exact T3 run). Not observable without instrumentation: the order in which two "
